@@ -45,6 +45,8 @@ def guarded(f, *a, **k):
 
 # ------------------------------------------------------------------------------------------------ timestamps / floats
 def ts_spec(x):
+    if isinstance(x, bool):
+        return {"$bool": x}
     if isinstance(x, float):
         try:
             return {"$float": repr(x), "int": int(x)}
@@ -55,8 +57,22 @@ def ts_spec(x):
 
 def ts_value(s):
     if isinstance(s, dict):
+        if "$bool" in s:
+            return s["$bool"]
         return float(s["$float"])
     return s
+
+
+def model_tree_spec(spec):
+    """the wire form for the Lean driver: a bool (an `int` to Python's isinstance) travels as a token carrying its `str()`
+    and `int()`; bool media numbers as the integers they are written as"""
+    out = dict(spec)
+    ts = spec["tree"]["build_timestamp"]
+    if isinstance(ts, dict) and "$bool" in ts:
+        out["tree"] = dict(spec["tree"], build_timestamp={"$float": str(ts["$bool"]), "int": int(ts["$bool"])})
+    m = spec["media"]
+    out["media"] = dict((k, int(v) if isinstance(v, bool) else v) for k, v in m.items())
+    return out
 
 
 def float_entry(text):
@@ -96,7 +112,10 @@ def build_variant(ti, vs):
 
 
 def build(spec):
+    """spec -> real TreeInfo.  Optional key "_style": 0 (default) fills the default containers in place (item assignment,
+    add()), 1 assigns fresh containers / updates sets in place (other construction style, same content)"""
     T = mod()
+    style = spec.get("_style", 0)
     ti = T.TreeInfo()
     ti.header.version = spec.get("header_version", "0.0")
     r = spec["release"]
@@ -108,7 +127,10 @@ def build(spec):
     t = spec["tree"]
     ti.tree.arch = t["arch"]
     ti.tree.build_timestamp = ts_value(t["build_timestamp"])
-    ti.tree.platforms = set(t["platforms"])
+    if style == 1:
+        ti.tree.platforms.update(t["platforms"])
+    else:
+        ti.tree.platforms = set(t["platforms"])
     for vs in spec["variants"]:
         v = build_variant(ti, vs)
         if vs["key"] == vs["id"]:
@@ -116,14 +138,19 @@ def build(spec):
         else:
             ti.variants.add(v, variant_id=vs["key"])
     import os.path
-    for path, typ, val in spec["checksums"]:
-        if val and not path.startswith("/") and os.path.normpath(path) == path:
-            ti.checksums.add(path, typ, val)             # the public way for a path in normal form (stores it verbatim)
-        else:
-            ti.checksums.checksums[path] = (typ, val)    # the table is a public dict: keys that add() would rewrite
-
-    for plat, imgs in spec["images"]:
-        ti.images.images[plat] = dict((k, p) for k, p in imgs)
+    if style == 1:
+        ti.checksums.checksums = dict((path, [typ, val]) for path, typ, val in spec["checksums"])
+        ti.images.images = dict((plat, dict((k, p) for k, p in imgs)) for plat, imgs in spec["images"])
+    else:
+        for path, typ, val in spec["checksums"]:
+            if val and not path.startswith("/") and os.path.normpath(path) == path:
+                ti.checksums.add(path, typ, val)             # the public way for a path in normal form (stores it verbatim)
+            else:
+                ti.checksums.checksums[path] = (typ, val)    # the table is a public dict: keys that add() would rewrite
+        for plat, imgs in spec["images"]:
+            ti.images.images.setdefault(plat, {})
+            for k, p_ in imgs:
+                ti.images.images[plat][k] = p_
     ti.stage2.mainimage = spec["stage2"]["mainimage"]
     ti.stage2.instimage = spec["stage2"]["instimage"]
     ti.media.discnum = spec["media"]["discnum"]
@@ -227,10 +254,11 @@ def read_ini(text):
             continue
         if cur is None:
             raise ValueError("text before the first section: %r" % line)
-        i = line.find("=")
-        if i < 0:
+        # the writer's layout is exactly `key + " = " + value` (keys are free of '='): nothing else is stripped, so that a value
+        # with an outer blank ("<empty name> <version>" in [general]) is seen as written
+        key, sep, value = line.partition(" = ")
+        if not sep:
             raise ValueError("not an option line: %r" % line)
-        key, value = line[:i].rstrip(" "), line[i + 1:].lstrip(" ")
         if key in cur:
             raise ValueError("duplicate option %r" % key)
         cur[key] = value
@@ -280,7 +308,7 @@ def expected_doc(spec, main_variant=None):
         d["stage2"] = dict((k, st[k]) for k in ("mainimage", "instimage") if st[k])
     m = spec["media"]
     if m["discnum"] or m["totaldiscs"]:
-        d["media"] = {"discnum": str(m["discnum"]), "totaldiscs": str(m["totaldiscs"])}
+        d["media"] = {"discnum": str(int(m["discnum"])), "totaldiscs": str(int(m["totaldiscs"]))}
     return d
 
 
@@ -322,14 +350,14 @@ def lookup_variant(variants, name):
 # ------------------------------------------------------------------------------------------------ generator
 NAMES = ["Fedora", "Red Hat Enterprise Linux", "A = B", "x: y", "# hash", "é ü", "100% pure", "%(short)s", "a%%b", "[x]", "Spacewalk"]
 SHORTS = ["F", "RHEL", "x y", "Spacewalk", "s%"]
-VERSIONS = ["20", "7.1", "Rawhide", "1.2.3", "7", "21", "Beta-1"]
+VERSIONS = ["20", "7.1", "Rawhide", "1.2.3", "7", "21", "Beta-1", "", "\u0663.\uff17", "0", "x ;y", "None", "1" * 300]
 ARCHES = ["x86_64", "ppc64le", "aarch64", "s390x", "i386", "armhfp"]
 PLATFORMS = ["xen", "efi", "Mixed", "uboot", "ppc", "XEN"]
 TOP_IDS = ["Server", "Client", "Workstation", "AppStream", "BaseOS", "Everything", "V1", "v2", "CRB"]
 KID_IDS = ["HA", "RS", "optional", "debug", "LB", "SAP", "K1", "NFV", "Rt"]
 PATH_VALUES = [".", "Packages", "a b/c", "UPPER/lower", "repo%20x", "x=y", "os/Packages", "Server/optional", "p:q", ""]
 IMAGE_NAMES = ["kernel", "Kernel", "initrd", "boot.iso", "UPGRADE", "a b", "kernel.img", "efiboot.img", "macboot.img"]
-CHECKSUM_PATHS = ["images/boot.iso", "repodata/repomd.xml", "UP/low", "images/pxeboot/vmlinuz", "Mixed/Case.img", "a b/c d"]
+CHECKSUM_PATHS = ["images/boot.iso", "repodata/repomd.xml", "UP/low", "up/low", "images/pxeboot/vmlinuz", "Mixed/Case.img", "mixed/case.img", "a b/c d"]
 # relative paths that are legal option names but NOT in os.path.normpath form (the table is a public dict, the writer emits keys
 # verbatim), including groups that normalise to the same string: every one must survive as a key of its own
 NONNORMAL_PATHS = ["./repodata/repomd.xml", "images//pxeboot/vmlinuz", "a/./b", "a/b", "a//b", "a/b/", "images/dir/", "a/../b", "b", "./b",
@@ -338,7 +366,20 @@ NONNORMAL_PATHS = ["./repodata/repomd.xml", "images//pxeboot/vmlinuz", "a/./b", 
 # (comment prefixes after a blank, delimiters, brackets, interpolation syntax, trailing backslash, inner tab / no-break space, long)
 BOUNDARY_VALUES = ["Fedora ;Server", "a #b", "a ; b", "a;b", "a ;", "; lead", "# lead", "x = y", "x: y", "[x]", "%(a)s", "%%", "100%",
                    "trailing\\", "tab\tinside", "nb\u00a0sp", "a  b", "images/boot ;1.iso", "L" + "o" * 3000 + "ng", "=", ":", "]x["]
-BOUNDARY_NAMES = ["a b", "k;x", "k#x", "a ;b", "a #b", "x y.img", "UP low", "k%", "nb\u00a0sp", "t\tab", "n" * 300]
+BOUNDARY_NAMES = ["a b", "k;x", "k#x", "a ;b", "a #b", "x y.img", "UP low", "k%", "nb\u00a0sp", "t\tab", "n" * 300,
+                  "a@b", "a,b", "a--b", "a..b", "a//b", 'q"uote', "it's", "back\\slash", "]x[", "\u0663\uff17", "\U0001F600", "None", "0", "1.0"]
+# audit additions (docs/GENERATOR_AUDIT.md A2/A5): every delimiter of the formats and its doubled form, quotes, non-ASCII digits,
+# astral characters, values that look like other types
+BOUNDARY_VALUES += ["", "a@b", "a,b", "a,,b", 'say "hi"', "it's", '"quoted"', "'q'", "a--b", "a..b", "a::b", "a//b", "a;;b", "a==b", "a##b",
+                    "a\\\\b", "[[x]]", "100%%", "\u0663\uff17", "\U0001F600 astral", "None", "null", "0", "False", "1.0", "true", "ALL"]
+# path shapes for the seven path kinds, image paths and stage2 (A3): all relative
+PATH_SHAPES = ["Packages/", "./Packages", "os//Packages", "os/./Packages", "../up/Packages", "os/../os/Packages", "os/os/Packages", "./", ".."]
+PATH_VALUES += PATH_SHAPES
+# ids / platform names / arches with delimiters (no '-' in ids, no ',' anywhere: both travel in comma lists / dashed UIDs)
+EXOTIC_IDS = ["A.b", "A b", "A;b", "x=y", "9", "\u00c9", "a:b", "[x]", "#h", "100%", "server", "SERVER", "ha", "Ha", "A_b", "A@b", "n" * 300]
+EXOTIC_PLATFORMS = ["x.y", "a b", "p;q", "x=y", "#p", "[p]", "Xen", "p%", "\u00e9"]
+ARCHES += ["ppc", "ppc64"]
+SRC_NEAR_MISSES = ["SRC", "nosrc", "srcx", "sr", "Src"]
 
 
 def uniq(xs):
@@ -353,7 +394,9 @@ def bval(rng, normal, rate=0.15, exclude=""):
     return rng.choice(normal) if isinstance(normal, list) else normal
 
 
-TS_POOL = [1, 123456, -5, 2 ** 40, 2 ** 53, -(2 ** 53), 1417653911, 2 ** 31, 2 ** 32 + 1, 7]
+TS_POOL = [1, 123456, -5, 2 ** 40, 2 ** 53, -(2 ** 53), 1417653911, 2 ** 31, 2 ** 32 + 1, 7, -1, 2 ** 32 + 7, 10 ** 7, 10 ** 8, 2 ** 31 - 1]
+FLOAT_TS_POOL = [1.5, 2.5, -0.5, 0.99, -2.75, 1417653911.25, 123456.0, 1e15 + 0.5, 4.0e18, 1e22, -1e22, 0.5, 5e-324]
+MEDIA_POOL = [(1, 3), (3, 3), (10, 12), (0, 5), (5, 0), (-1, 2), (1, 2 ** 63), (2 ** 31, 2 ** 32 + 7), (True, 3), (2, 1), (1, 1)]
 
 
 def gen_variant(rng, vid, uid, typ, arch, depth, maxdepth, used):
@@ -363,13 +406,16 @@ def gen_variant(rng, vid, uid, typ, arch, depth, maxdepth, used):
     v = {"key": vid, "id": vid, "uid": uid, "name": bval(rng, [vid, "Name of %s" % vid, "n", "High Availability"]), "type": typ,
          "paths": [[f, bval(rng, PATH_VALUES)] for f in PATH_FIELDS if f in fields], "variants": []}
     if depth < maxdepth:
-        for cid in rng.sample(KID_IDS, rng.choice([0, 0, 1, 2, 3])):
+        for cid in rng.sample(KID_IDS + (EXOTIC_IDS if rng.random() < 0.1 else []), rng.choice([0, 0, 1, 2, 3])):
             cuid = uid + "-" + cid
             if cuid in used:
                 continue
             used.add(cuid)
             ctype = rng.choice(["addon", "variant", "optional"])
-            v["variants"].append(gen_variant(rng, cid, cuid, ctype, arch, depth + 1, maxdepth, used))
+            c = gen_variant(rng, cid, cuid, ctype, arch, depth + 1, maxdepth, used)
+            if rng.random() < 0.08:
+                c["key"] = cuid                      # filed with add(c, variant_id=c.uid): comes back filed under its id (norm)
+            v["variants"].append(c)
         rng.shuffle(v["variants"])
     return v
 
@@ -384,11 +430,11 @@ def gen(rng, tier="quick", float_ts=False, dashed_by_id=0.0):
             "is_layered": layered,
             "base_product": {"name": bval(rng, NAMES), "short": bval(rng, ["B", "BP"]), "version": rng.choice(["7", "Beta", "21.1", "Beta ;2"])}
             if (layered or rng.random() < 0.1) else None}
-    plats = set(rng.sample(PLATFORMS, rng.randint(0, 3)))
+    plats = set(rng.sample(PLATFORMS + (EXOTIC_PLATFORMS if rng.random() < 0.2 else []), rng.randint(0, 3)))
     if rng.random() < 0.7:
         plats.add(arch)
     if float_ts:
-        ts = rng.choice([1.5, 1417653911.25, 123456.0, -2.75, 1e15 + 0.5, 4.0e18, struct.unpack("<d", struct.pack("<Q", rng.getrandbits(64)))[0]])
+        ts = rng.choice(FLOAT_TS_POOL + [struct.unpack("<d", struct.pack("<Q", rng.getrandbits(64)))[0]])
         if ts != ts or ts in (float("inf"), float("-inf")) or ts == 0:
             ts = 1417653911.75
         ts = ts_spec(ts)
@@ -398,7 +444,7 @@ def gen(rng, tier="quick", float_ts=False, dashed_by_id=0.0):
             ts = 1
     tops, used = [], set()
     maxdepth = 3 if tier != "quick" or rng.random() < 0.3 else 2
-    ids = rng.sample(TOP_IDS, rng.randint(1, 3))
+    ids = rng.sample(TOP_IDS + (EXOTIC_IDS if rng.random() < 0.15 else []), rng.randint(1, 3))
     for vid in ids:
         used.add(vid)
         tops.append(gen_variant(rng, vid, vid, rng.choice(["variant", "variant", "optional"]), arch, 1, maxdepth, used))
@@ -419,23 +465,274 @@ def gen(rng, tier="quick", float_ts=False, dashed_by_id=0.0):
     for p in sorted(plats):
         if rng.random() < 0.6:
             names = rng.sample(uniq(IMAGE_NAMES + (BOUNDARY_NAMES if rng.random() < 0.3 else [])), rng.randint(0, 4))
-            images.append([p, [[k, bval(rng, "images/%s/%s" % (p, k))] for k in names]])
+            images.append([p, [[k, bval(rng, ["images/%s/%s" % (p, k)] * 4 + PATH_SHAPES[:7])] for k in names]])
     rng.shuffle(images)
     checks = []
     for p in rng.sample(uniq(CHECKSUM_PATHS + (BOUNDARY_NAMES if rng.random() < 0.3 else []) + (NONNORMAL_PATHS if rng.random() < 0.35 else [])),
                         rng.choice([0, 0, 1, 2, 3, 4])):
-        checks.append([p, bval(rng, ["sha256", "md5", "sha1", "sha512", "SHA256"], rate=0.05, exclude=":"),
+        checks.append([p, bval(rng, ["sha256", "md5", "sha1", "sha512", "SHA256", "Sha256"], rate=0.05, exclude=":"),
                        bval(rng, "%x" % rng.getrandbits(rng.choice([64, 128, 160, 256])), exclude=":")])
-    stage2 = {"mainimage": bval(rng, "LiveOS/squashfs.img") if rng.random() < 0.5 else rng.choice([None, None, ""]),
-              "instimage": bval(rng, "images/install.img") if rng.random() < 0.2 else None}
+    stage2 = {"mainimage": bval(rng, ["LiveOS/squashfs.img"] + PATH_SHAPES[:6]) if rng.random() < 0.5 else rng.choice([None, None, ""]),
+              "instimage": bval(rng, ["images/install.img"] + PATH_SHAPES[:6]) if rng.random() < 0.25 else rng.choice([None, None, None, ""])}
     media = {"discnum": None, "totaldiscs": None}
     if rng.random() < 0.4:
         tot = rng.randint(1, 4)
         media = {"discnum": rng.randint(1, tot), "totaldiscs": tot}
         if rng.random() < 0.2:
             media = {"discnum": rng.randint(0, 9), "totaldiscs": rng.randint(1, 9)}
+        elif rng.random() < 0.25:
+            a_, b_ = rng.choice(MEDIA_POOL)
+            media = {"discnum": a_, "totaldiscs": b_}
     spec.update({"tree": {"arch": arch, "build_timestamp": ts, "platforms": sorted(plats)}, "variants": tops, "checksums": checks,
                  "images": images, "stage2": stage2, "media": media})
     keys = [v["key"] for v in tops]
     mv = rng.choice([None] + keys) if rng.random() < 0.7 else None
     return spec, mv
+
+
+# ------------------------------------------------------------------------------------------------ named classes (round-robin)
+def _top(spec):
+    return spec["variants"][0]
+
+
+def _set_path(v, field, value):
+    v["paths"] = [[f, p] for f, p in v["paths"] if f != field] + ([[field, value]] if value is not None else [])
+    v["paths"].sort(key=lambda fp: PATH_FIELDS.index(fp[0]))
+
+
+def gen_class(rng, cls, tier="quick", float_ts=False):
+    """a valid tree exhibiting the named class (docs/audit_C04.md); every class stays inside the quantifier of C04/C17 unless
+    its name ends in '!' (region of a known finding / refusal).  -> (spec, main_variant)"""
+    spec, mv = gen(rng, tier, float_ts=float_ts)
+    arch = spec["tree"]["arch"]
+    if cls == "instimage-only":                       # C04-u1a
+        spec["stage2"] = {"mainimage": rng.choice([None, ""]), "instimage": bval(rng, ["images/install.img", "x ;y", "./i//m"])}
+    elif cls == "stage2-both":
+        spec["stage2"] = {"mainimage": bval(rng, ["LiveOS/squashfs.img"]), "instimage": bval(rng, ["images/install.img"])}
+    elif cls == "src-empty-packages":                 # C17-u5a: "" is not None, the src fallback must not apply
+        spec["tree"]["arch"] = "src"
+        spec["tree"]["platforms"] = sorted(set(p for p in spec["tree"]["platforms"] if p != arch) | {"src"})
+        spec["images"] = [[("src" if p == arch else p), i] for p, i in spec["images"]]
+        v = _top(spec)
+        _set_path(v, "packages", rng.choice(["", "", "Packages"]))
+        _set_path(v, "repository", rng.choice(["", None]))
+        _set_path(v, "source_packages", "SRPMS")
+        _set_path(v, "source_repository", "src/repo")
+        mv = rng.choice([None, v["key"]]) if len(spec["variants"]) == 1 else v["key"]
+    elif cls == "src-only-source-paths":
+        spec["tree"]["arch"] = "src"
+        spec["tree"]["platforms"] = sorted(set(p for p in spec["tree"]["platforms"] if p != arch) | {"src"})
+        spec["images"] = [[("src" if p == arch else p), i] for p, i in spec["images"]]
+        for v in spec["variants"]:
+            v["paths"] = [[f, p] for f, p in v["paths"] if f.startswith("source_")] or [["source_packages", "SRPMS"], ["source_repository", "."]]
+    elif cls == "src-near-miss-arch":                 # the literal "src" plus extensions / prefix / other case: no fallback
+        new = rng.choice(SRC_NEAR_MISSES)
+        spec["tree"]["arch"] = new
+        spec["tree"]["platforms"] = sorted(set(p for p in spec["tree"]["platforms"] if p != arch) | {new})
+        spec["images"] = [[(new if p == arch else p), i] for p, i in spec["images"]]
+        for v in spec["variants"]:
+            v["paths"] = [["source_packages", "SRPMS"], ["source_repository", "."]]
+    elif cls == "blank-semicolon-values":             # C04-r5b
+        vals = ["Fedora ;Server", "a #b", "x ; y", "images/boot ;1.iso"]
+        spec["release"]["name"] = rng.choice(vals)
+        v = _top(spec)
+        v["name"] = rng.choice(vals)
+        _set_path(v, rng.choice(PATH_FIELDS), rng.choice(vals))
+        spec["checksums"] = spec["checksums"][:2] + [["images/x ;y.iso", "sha256", rng.choice(vals)]]
+    elif cls == "nonnormal-checksum-keys":            # C04-t4a, with a pair that normalises to the same string
+        keys = rng.sample(NONNORMAL_PATHS, 3) + rng.choice([["a/b", "a//b"], ["b", "a/../b"], ["x", "x/."], ["e", "c/d/../../e"]])
+        spec["checksums"] = [[k, "sha256", "%x" % rng.getrandbits(64)] for k in uniq(keys)]
+    elif cls == "case-twins":                         # names differing only in case inside one tree
+        spec["variants"] = [v for v in spec["variants"] if v["uid"].lower() not in ("server",)]
+        used = set(u["uid"] for u, _ in all_variants(spec["variants"]))
+        for vid in ("Server", "server", "SERVER"):
+            if vid not in used:
+                spec["variants"].append(gen_variant(rng, vid, vid, "variant", spec["tree"]["arch"], 1, 2, used | {vid}))
+        spec["tree"]["platforms"] = sorted(set(spec["tree"]["platforms"]) | {"xen", "XEN", "Xen"})
+        spec["images"] = [[p, i] for p, i in spec["images"] if p not in ("xen", "XEN", "Xen")] + [
+            ["xen", [["kernel", "a"], ["Kernel", "b"], ["KERNEL", "c"]]], ["XEN", [["kernel", "d"]]]]
+        spec["checksums"] = [["UP/low", "sha256", "aa"], ["up/low", "SHA256", "AA"], ["Up/Low", "Sha256", "aA"]]
+        mv = rng.choice([None, "server", "Server", "SERVER"])
+    elif cls == "empty-strings":
+        spec["release"].update(name=rng.choice(["", "Fedora"]), short="", version=rng.choice(["", "20"]))
+        v = _top(spec)
+        v["name"] = ""
+        v["paths"] = [[f, ""] for f in PATH_FIELDS]
+        if spec["images"]:
+            spec["images"][0][1] = [[k, ""] for k, _ in spec["images"][0][1]] or spec["images"][0][1]
+        spec["checksums"] = spec["checksums"][:1] + [["empty/value", "", ""], ["empty/type", "", "ab"]]
+        spec["stage2"] = {"mainimage": rng.choice(["", None, "LiveOS/squashfs.img"]), "instimage": ""}
+    elif cls == "numbers":
+        a_, b_ = rng.choice(MEDIA_POOL)
+        spec["media"] = {"discnum": a_, "totaldiscs": b_}
+        if not float_ts:
+            spec["tree"]["build_timestamp"] = rng.choice(TS_POOL)
+    elif cls == "platform-near-miss":                 # near the "-<arch>" suffix rule of the reader (F25 is the rule itself)
+        a = spec["tree"]["arch"]
+        near = ["xen" + a, a + "-xen", a + "x", "x" + a, a.upper() if a.upper() != a else a + "2"]
+        spec["tree"]["platforms"] = sorted(set(spec["tree"]["platforms"]) | set(near) | {a})
+        spec["images"] = [[p, i] for p, i in spec["images"] if p not in near] + [[p, [["kernel", "images/%s" % p]]] for p in near] + (
+            [] if any(p == a for p, _ in spec["images"]) else [[a, [["kernel", "k"]]]])
+    elif cls == "exotic-ids":
+        used = set(u["uid"] for u, _ in all_variants(spec["variants"]))
+        for vid in rng.sample(EXOTIC_IDS, 3):
+            if vid not in used:
+                used.add(vid)
+                spec["variants"].append(gen_variant(rng, vid, vid, rng.choice(["variant", "optional"]), spec["tree"]["arch"], 1, 2, used))
+        spec["tree"]["platforms"] = sorted(set(spec["tree"]["platforms"]) | set(rng.sample(EXOTIC_PLATFORMS, 2)))
+    elif cls == "child-keyed-by-uid":
+        v = _top(spec)
+        if not v["variants"]:
+            v["variants"].append(gen_variant(rng, "HA", v["uid"] + "-HA", "addon", spec["tree"]["arch"], 2, 2, set()))
+        for c in v["variants"]:
+            c["key"] = c["uid"]
+        mv = rng.choice([None, v["key"]] + ([] if "-" in v["key"] else [v["key"] + "-" + v["variants"][0]["key"]]))
+    elif cls == "dashed-top-by-uid":
+        base = _top(spec)["uid"]
+        uid = base + "-optional"
+        if all(u["uid"] != uid for u, _ in all_variants(spec["variants"])):
+            v = gen_variant(rng, "optional", uid, "optional", spec["tree"]["arch"], 1, 2, set(u["uid"] for u, _ in all_variants(spec["variants"])) | {uid})
+            v["key"] = uid
+            spec["variants"].append(v)
+        mv = rng.choice([None, uid])
+    elif cls == "deep-all-child-types":
+        v = _top(spec)
+        v["variants"] = []
+        for i, ct in enumerate(["addon", "variant", "optional"]):
+            c = gen_variant(rng, "K%d" % i, "%s-K%d" % (v["uid"], i), ct, spec["tree"]["arch"], 2, 2, set())
+            c["variants"] = []
+            for j, gt in enumerate(["optional", "addon", "variant"]):
+                g = gen_variant(rng, "G%d" % j, "%s-G%d" % (c["uid"], j), gt, spec["tree"]["arch"], 3, 3, set())
+                g["variants"] = []
+                c["variants"].append(g)
+            v["variants"].append(c)
+    elif cls == "all-seven-paths":
+        for v, _ in all_variants(spec["variants"]):
+            v["paths"] = [[f, bval(rng, PATH_VALUES)] for f in PATH_FIELDS]
+    elif cls == "last-path-only":                     # the LAST entry of the field table alone
+        for v, _ in all_variants(spec["variants"]):
+            v["paths"] = [[PATH_FIELDS[-1], "identity.pem"]]
+    elif cls == "empty-containers":
+        spec["tree"]["platforms"] = [p for p, _ in spec["images"]][:1]
+        spec["images"] = [[p, []] for p, _ in spec["images"][:1]]       # a bucket that exists and is empty
+        spec["checksums"] = []
+        for v, _ in all_variants(spec["variants"]):
+            v["paths"] = []
+    elif cls == "unicode-typelike":
+        pool = ["٣７", "\U0001F600 astral", "None", "null", "0", "False", "1.0", "true", "ALL", "L" + "o" * 3000 + "ng"]
+        spec["release"].update(name=rng.choice(pool), short=rng.choice(pool))
+        v = _top(spec)
+        v["name"] = rng.choice(pool)
+        _set_path(v, "packages", rng.choice(pool))
+        spec["stage2"]["mainimage"] = rng.choice(pool)
+        spec["checksums"] = spec["checksums"][:1] + [[rng.choice(["٣７", "None", "0", "1.0"]), rng.choice(pool), rng.choice(pool)]]
+    elif cls == "path-shapes":
+        for v, _ in all_variants(spec["variants"]):
+            v["paths"] = [[f, rng.choice(PATH_SHAPES)] for f in rng.sample(PATH_FIELDS, 3)]
+            v["paths"].sort(key=lambda fp: PATH_FIELDS.index(fp[0]))
+        spec["stage2"] = {"mainimage": rng.choice(PATH_SHAPES), "instimage": rng.choice(PATH_SHAPES + [None])}
+        if spec["images"]:
+            spec["images"][0][1] = [[k, rng.choice(PATH_SHAPES)] for k, _ in spec["images"][0][1]] or [["kernel", "./k//x/"]]
+    elif cls == "layered-boundary":
+        spec["is_layered"] = True
+        spec["base_product"] = {"name": bval(rng, NAMES, rate=0.6), "short": bval(rng, ["B"], rate=0.6), "version": rng.choice(["7", "", "Beta ;2", "٣"])}
+    elif cls == "base-product-unlayered":
+        spec["is_layered"] = False
+        spec["base_product"] = {"name": "Base", "short": "B", "version": "7"}
+    elif cls == "platforms-without-arch":
+        spec["tree"]["platforms"] = [p for p in spec["tree"]["platforms"] if p != spec["tree"]["arch"]]
+        spec["images"] = [[p, i] for p, i in spec["images"] if p != spec["tree"]["arch"]]
+    elif cls == "bool-timestamp!":                    # F35
+        spec["tree"]["build_timestamp"] = {"$bool": True}
+    elif cls == "no-variants!":                       # F12: refused (IndexError), real and model must agree on the refusal
+        spec["variants"] = []
+        mv = None
+    # tables are dicts: one entry per key
+    spec["checksums"] = list(dict((c[0], c) for c in spec["checksums"]).values())
+    spec["images"] = [[p, list(dict((x[0], x) for x in imgs).values())] for p, imgs in dict((i[0], i) for i in spec["images"]).values()]
+    keys = [v["key"] for v in spec["variants"]]
+    if mv is not None and cls not in ("child-keyed-by-uid",) and mv not in keys:
+        mv = None
+    return spec, mv
+
+
+CLASSES = ["instimage-only", "stage2-both", "src-empty-packages", "src-only-source-paths", "src-near-miss-arch", "blank-semicolon-values",
+           "nonnormal-checksum-keys", "case-twins", "empty-strings", "numbers", "platform-near-miss", "exotic-ids", "child-keyed-by-uid",
+           "dashed-top-by-uid", "deep-all-child-types", "all-seven-paths", "last-path-only", "empty-containers", "unicode-typelike",
+           "path-shapes", "layered-boundary", "base-product-unlayered", "platforms-without-arch", "bool-timestamp!", "no-variants!"]
+
+
+# ------------------------------------------------------------------------------------------------ in-place updates (sequences)
+def gen_update(rng, spec):
+    """a modification of an existing object that keeps the forest shape: new scalar facts, stage2, media, tables refilled in place,
+    names / paths of variants at any depth"""
+    other, _ = gen(rng)
+    upd = {"release": other["release"], "stage2": other["stage2"], "media": other["media"], "checksums": other["checksums"],
+           "build_timestamp": rng.choice(TS_POOL)}
+    plats = spec["tree"]["platforms"]
+    upd["images"] = [[p, [[k, "new/%s" % k] for k in rng.sample(IMAGE_NAMES, rng.randint(0, 3))]] for p in rng.sample(plats, min(len(plats), rng.randint(0, 2)))]
+    allv = [v for v, _ in all_variants(spec["variants"])]
+    upd["variants"] = dict((v["uid"], {"name": bval(rng, ["renamed", "n2"]), "paths": [[f, bval(rng, PATH_VALUES)] for f in PATH_FIELDS if rng.random() < 0.4]})
+                           for v in rng.sample(allv, min(len(allv), 2)))
+    return upd
+
+
+def apply_update_spec(spec, upd):
+    """the spec after `apply_update`"""
+    import copy
+    s = copy.deepcopy(spec)
+    s["release"] = dict(upd["release"])
+    s["stage2"] = dict(upd["stage2"])
+    s["media"] = dict(upd["media"])
+    s["checksums"] = [list(c) for c in upd["checksums"]]
+    s["images"] = [[p, [list(x) for x in imgs]] for p, imgs in upd["images"]]
+    s["tree"]["build_timestamp"] = upd["build_timestamp"]
+    for v, _ in all_variants(s["variants"]):
+        u = upd["variants"].get(v["uid"])
+        if u:
+            v["name"] = u["name"]
+            v["paths"] = [list(x) for x in u["paths"]]
+    return s
+
+
+def _walk(container):
+    for v in list(container.variants.values()):
+        yield v
+        for x in _walk(v):
+            yield x
+
+
+def apply_update(ti, upd):
+    """mutate a real TreeInfo in place (the containers the object already has are kept and refilled)"""
+    r = upd["release"]
+    ti.release.name, ti.release.short, ti.release.version = r["name"], r["short"], r["version"]
+    ti.tree.build_timestamp = upd["build_timestamp"]
+    ti.stage2.mainimage, ti.stage2.instimage = upd["stage2"]["mainimage"], upd["stage2"]["instimage"]
+    ti.media.discnum, ti.media.totaldiscs = upd["media"]["discnum"], upd["media"]["totaldiscs"]
+    ti.checksums.checksums.clear()
+    for p, t, v in upd["checksums"]:
+        ti.checksums.checksums[p] = (t, v)
+    ti.images.images.clear()
+    for p, imgs in upd["images"]:
+        ti.images.images[p] = dict((k, x) for k, x in imgs)
+    for v in _walk(ti.variants):
+        u = upd["variants"].get(v.uid)
+        if u:
+            v.name = u["name"]
+            pd = dict(map(tuple, u["paths"]))
+            for f in PATH_FIELDS:
+                setattr(v.paths, f, pd.get(f))
+
+
+def read_only_calls(ti):
+    """every public read-only entry point; results are discarded, the state must not change"""
+    out = []
+    for f in (lambda: str(ti), lambda: list(ti.variants), lambda: [ti[k] for k in list(ti.variants.variants)],
+              lambda: ti.variants.get_variants(recursive=True), lambda: ti.images.platforms, lambda: ti.release.major_version,
+              lambda: ti.release.minor_version, lambda: ti.header.version_tuple, lambda: [v.arch for v in _walk(ti.variants)],
+              lambda: [len(v) for v in _walk(ti.variants)], lambda: ti.validate()):
+        try:
+            out.append(f())
+        except Exception:  # noqa
+            out.append(None)
+    return len(out)
